@@ -508,6 +508,74 @@ theorem timed_session_survives (cfg : Cfg) (tm : Timing) (tis : List TItem)
           (by rw [hc.1]; exact hb)
         rwa [hc.1] at this
 
+/-- first occurrence of an element -/
+theorem split_first {α : Type} [DecidableEq α] (l : List α) (x : α) (h : x ∈ l) :
+    ∃ pre post, l = pre ++ x :: post ∧ x ∉ pre := by
+  induction l with
+  | nil => simp at h
+  | cons y ys ih =>
+    by_cases hxy : x = y
+    · exact ⟨[], ys, by simp [hxy], by simp⟩
+    · have : x ∈ ys := by
+        rcases List.mem_cons.mp h with h | h
+        · exact absurd h hxy
+        · exact h
+      obtain ⟨pre, post, he, hn⟩ := ih this
+      exact ⟨y :: pre, post, by simp [he], by simp [hxy, hn]⟩
+
+/-- **Timed, with disconnects.**  In the schedule, a request whose completion (its own outcome
+before the deadline, or the overrun at it) comes strictly before every reply-and-disconnect and
+every behaviour outside the quantifier is answered with the table's reply - whatever happens
+later. -/
+theorem timed_answered_unless_cut (cfg : Cfg) (tm : Timing) (tis : List TItem) (ev : Nat × Item)
+    (hev : ev ∈ schedule tm tis)
+    (hcut : ∀ e ∈ schedule tm tis, ¬ clean cfg e.2 → ev.1 < e.1 ∨ e = ev)
+    (hs : inScope ev.2.outcome = true) (hx : ev.2.outcome ≠ .raisesExcessive)
+    (hreq : ev.2.kind = .request) (hb : ev.2.batch = false) :
+    (ev.2.id, textReply cfg ev.2.outcome) ∈ (runTimed .repaired cfg tm tis).replies := by
+  obtain ⟨pre, post, he, hn⟩ := split_first _ ev hev
+  have hsorted := (schedule_complete tm tis).2.1
+  rw [he] at hsorted
+  have hle := (List.pairwise_append.mp hsorted).2.2
+  have hpre : ∀ x ∈ pre.map (·.2), clean cfg x := by
+    intro x hx'
+    obtain ⟨e, hepre, rfl⟩ := List.mem_map.mp hx'
+    have hmem : e ∈ schedule tm tis := by rw [he]; simp [hepre]
+    have hle' : e.1 ≤ ev.1 := hle e hepre ev (by simp)
+    by_cases hc : clean cfg e.2
+    · exact hc
+    · rcases hcut e hmem hc with h | h
+      · omega
+      · exact absurd (h ▸ hepre) hn
+  unfold runTimed
+  rw [he, List.map_append, List.map_cons]
+  exact answered_unless_cut cfg _ ev.2 _ hpre hs hx hreq hb
+
+/-- non-vacuity: two slots; request 1 replies and disconnects at 9 s; request 0 (7 s) completed
+before and is answered, request 2 (would complete at 11 s) is cut off -/
+example :
+    let tis : List TItem := [⟨⟨0, .request, false, .returns (.value 1)⟩, 7⟩,
+      ⟨⟨1, .request, false, .replyAndDisconnect (.value 2)⟩, 9⟩, ⟨⟨2, .request, false, .returns (.value 3)⟩, 4⟩]
+    (schedule { slots := 2 } tis).map (fun ev => (ev.1, ev.2.id)) = [(7, 0), (9, 1), (11, 2)] ∧
+    (runTimed .repaired {} { slots := 2 } tis).replies = [(0, .result 1), (1, .result 2)] ∧
+    (runTimed .repaired {} { slots := 2 } tis).lost = [2] := by decide
+
+/-- the error count of a timed run without disconnects: the requests and notifications that
+failed or overran -/
+theorem timed_errors (cfg : Cfg) (tm : Timing) (tis : List TItem)
+    (h : ∀ ti ∈ tis, clean cfg ti.item) :
+    (runTimed .repaired cfg tm tis).errors =
+      (((schedule tm tis).map (·.2)).filter fun it => failedItem it.kind it.outcome).length := by
+  have hperm := sortEv_perm (completions tm (List.replicate tm.slots 0) tis)
+  have hclean : ∀ it ∈ (schedule tm tis).map (·.2), clean cfg it := by
+    intro it hit
+    obtain ⟨ev, hev, rfl⟩ := List.mem_map.mp hit
+    obtain ⟨ti, hti, hc⟩ := completions_of_mem tm tis _ ev (hperm.mem_iff.mp hev)
+    rcases hc with hc | hc
+    · rw [hc.1]; exact h ti hti
+    · rw [hc.1]; exact clean_overrun _
+  exact (session_survives cfg _ hclean).2.2.2.2.2
+
 /-- non-vacuity: one slot, three requests - the first finishes (7 s), the second would need
 until 33 s and overruns in its handler, the third is still queued when its timeout expires -/
 example :
